@@ -782,9 +782,7 @@ theorem columns_spec_up (g : Globals) (hg : g.dialect = .mysql) (hio : g.ignoreO
     (heo : execAll rc [] old = some dbO) (hen : execAll rc [] new = some dbN)
     (d : Migration) (hd : loadAndDiff g old new = .ok d)
     (t : String) (tbO tbN : TableSpec) (hfo : dbO.find t = some tbO) (hfn : dbN.find t = some tbN)
-    (hc : Abs.OrderCompatible tbN.colNames tbO.colNames) (hne : ∀ n ∈ tbN.colNames ++ tbO.colNames, n ≠ "")
-    (hncO : ∀ c ∈ tbO.cols, ∀ k ∈ c.opts, k.noComment = true)
-    (hncN : ∀ c ∈ tbN.cols, ∀ k ∈ c.opts, k.noComment = true) :
+    (hc : Abs.OrderCompatible tbN.colNames tbO.colNames) (hne : ∀ n ∈ tbN.colNames ++ tbO.colNames, n ≠ "") :
     ∃ td ∈ d.tables, td.name = t ∧ td.action = .none ∧
       td.migrationColumnUp g = .ok (Table.walkCols g t true [] td.cols) ∧
       ∃ cols', colExecAll tbO.cols (Table.walkCols g t true [] td.cols).1 = some cols' ∧
@@ -884,9 +882,9 @@ theorem columns_spec_up (g : Globals) (hg : g.dialect = .mysql) (hio : g.ignoreO
       rw [this]
       exact equiv_of cO cN hcOn hsame.1 hsame.2
     · -- different: one MODIFY COLUMN with the new definition
-      have hchg : cO.typ ≠ cN.typ ∨ (¬ cO.opts.Perm cN.opts ∧ (∀ k ∈ cO.opts, k.noComment = true) ∧ (∀ k ∈ cN.opts, k.noComment = true)) := by
+      have hchg : cO.typ ≠ cN.typ ∨ ¬ cO.opts.Perm cN.opts := by
         by_cases ht : cO.typ = cN.typ
-        · exact Or.inr ⟨fun hp => hsame ⟨ht, hp⟩, hncO cO hcO, hncN cN hcN⟩
+        · exact Or.inr (fun hp => hsame ⟨ht, hp⟩)
         · exact Or.inl ht
       obtain ⟨td', htd', hn', _, ⟨cd, hmem, hpk, hcdn, hcdt, hcdo⟩, _⟩ := changed_column_modified g hg rc old new dbO dbN ho hn hpo hpn
         heo hen d hd t tbO tbN hfo hfn cN cO hcN hcO hcOn hchg
